@@ -1,18 +1,20 @@
-(* The literals of the hand-written models tied to the constants of the Go source.
+(* The literals of the hand-written models tied to the NAMED constants of the Go source.
 
-   Gen/Consts.v is regenerated from /repo's current source on every run (tools/genconsts: package-level constants,
-   regexp patterns, bidirectional-map entries, xml struct tags, and per function the set of string literals in its
-   body).  Every statement below is a closed boolean computed by the kernel: the model's literal IS the Go constant
-   ([eqs]), or occurs among the string literals of the Go function the model transcribes ([mem]).  A constant edited in
-   the Go source (a column name, a block keyword, an attribute tag, a language code, an escape sequence) therefore breaks
-   one of these lemmas - and with it the property file that states it - even before any input is generated.
+   Gen/Consts.v is regenerated from /repo's current source on every run (tools/genconsts).  Every statement below is a
+   closed boolean computed by the kernel: the model's literal IS the package-level constant, the xml struct tag or the
+   bidirectional-map entry of the source.  A constant edited in the Go source (a column name, a separator, an attribute
+   tag, a language code) therefore breaks one of these lemmas - and with it the property file that states it - before any
+   input is generated.
 
-   What this does NOT show: that the constant is USED by the code where the model uses it (that is the correspondence
-   check's part), nor anything about literals of one or two characters whose membership in a function body is weak
-   evidence (they are listed for completeness). *)
+   Deliberately NOT tied here: string literals inside function bodies and the patterns handed to regexp.MustCompile
+   (Gen/Consts.v lists them under the prefixes gc_strs and gc_re).  A behaviour-preserving rewrite moves or splits such literals and
+   replaces a regexp by an equivalent scan; a tie on them would turn every such rewrite into a broken obligation.  Changes
+   there are noticed by the source-drift fingerprints (bin/check), which widen the search instead of giving a verdict.
+
+   What this does not show: that the constant is USED by the code where the model uses it (the correspondence check's
+   part).  One file per format, so that a change in one format's constants touches that format's property only. *)
 From Coq Require Import List NArith ZArith Bool.
 From Astisub Require Import Kit.Base Kit.Str Gen.Consts.
-From Astisub Require Model.Srt Model.Vtt Model.Ssa Model.Ttml.
 Import ListNotations.
 Open Scope N_scope.
 
@@ -29,140 +31,4 @@ Definition tag_name (t : str) : str :=
   match after 32 t with Some r => r | None => match after 58 t with Some r => r | None => t end end.
 Definition tag_of (field : str) (tags : list (str * str)) : str :=
   match find (fun p => str_eqb (fst p) field) tags with Some p => tag_name (snd p) | None => [] end.
-
-(* ------------------------------------------------------------------ regular expressions
-   The models' matchers were transcribed by hand from these five patterns (regexp itself is a named contract, DESIGN.md);
-   the ties state that the patterns of the source are still exactly the ones transcribed. *)
-(* Model/Ssa.v split_effects - \{[^\{]+\} *)
-Definition re_ssa_effect : str := [92; 123; 91; 94; 92; 123; 93; 43; 92; 125].
-(* Model/Ttml.v ttml_time (clock time with frames) - ^[^:]*:[^:]*:[^:]*(\:[\d]+)$ *)
-Definition re_ttml_clock_frames : str := [94; 91; 94; 58; 93; 42; 58; 91; 94; 58; 93; 42; 58; 91; 94; 58; 93; 42; 40; 92; 58; 91; 92; 100; 93; 43; 41; 36].
-(* Model/Ttml.v ttml_time (offset time) - ^(\d+(\.\d+)?)(h|m|s|ms|f|t)$ *)
-Definition re_ttml_offset : str := [94; 40; 92; 100; 43; 40; 92; 46; 92; 100; 43; 41; 63; 41; 40; 104; 124; 109; 124; 115; 124; 109; 115; 124; 102; 124; 116; 41; 36].
-(* Model/Vtt.v inline timestamps - <((?:\d{2,}:)?\d{2}:\d{2}\.\d{3})> *)
-Definition re_vtt_inline_ts : str := [60; 40; 40; 63; 58; 92; 100; 123; 50; 44; 125; 58; 41; 63; 92; 100; 123; 50; 125; 58; 92; 100; 123; 50; 125; 92; 46; 92; 100; 123; 51; 125; 41; 62].
-(* Model/Vtt.v tag tokens - (</*\s*([^\.\s]+)(\.[^\s/]* )*\s*([^/]* )\s*/*>) *)
-Definition re_vtt_tag : str := [40; 60; 47; 42; 92; 115; 42; 40; 91; 94; 92; 46; 92; 115; 93; 43; 41; 40; 92; 46; 91; 94; 92; 115; 47; 93; 42; 41; 42; 92; 115; 42; 40; 91; 94; 47; 93; 42; 41; 92; 115; 42; 47; 42; 62; 41].
-
-(* ------------------------------------------------------------------ SubRip *)
-Module SrtTie.
-Import Model.Srt.
-Definition ties : list bool :=
-  [ eqs arrow gc_srtTimeBoundariesSeparator
-  ; mem n_b gc_strs_parseTextSrt; mem n_i gc_strs_parseTextSrt; mem n_u gc_strs_parseTextSrt
-  ; mem n_font gc_strs_parseTextSrt; mem n_color gc_strs_parseTextSrt
-  ; mem s_font_open gc_strs_LineItem_srtBytes; mem s_font_close gc_strs_LineItem_srtBytes
-  ; mem [60; 98; 62] gc_strs_LineItem_srtBytes; mem [60; 47; 98; 62] gc_strs_LineItem_srtBytes
-  ; mem [60; 105; 62] gc_strs_LineItem_srtBytes; mem [60; 47; 105; 62] gc_strs_LineItem_srtBytes
-  ; mem [60; 117; 62] gc_strs_LineItem_srtBytes; mem [60; 47; 117; 62] gc_strs_LineItem_srtBytes
-  ; all (map (fun p => match p with (CI 0, _) => true | (CI z, CI 0) => Z.eqb z (Z.of_N (nth 0 bom 0)) || Z.eqb z (Z.of_N (nth 1 bom 0)) || Z.eqb z (Z.of_N (nth 2 bom 0)) | _ => false end) gc_lit_BytesBOM)
-  ; Nat.eqb (length gc_lit_BytesBOM) 3 ].
-Lemma consts_from_source : all ties = true.
-Proof. vm_compute. reflexivity. Qed.
-End SrtTie.
-
-(* ------------------------------------------------------------------ WebVTT *)
-Module VttTie.
-Import Model.Vtt.
-Definition wr := gc_strs_Subtitles_WriteToWebVTT.
-Definition rd := gc_strs_ReadFromWebVTT.
-Definition ties : list bool :=
-  [ mem p_note rd; mem p_style rd; mem p_region rd; mem p_note wr
-  ; eqs p_tsmap gc_webvttTimestampMapHeader
-  ; eqs default_style_id gc_webvttDefaultStyleID
-  ; eqs [45; 45; 62] gc_webvttTimeBoundariesSeparator
-  ; mem p_webvtt rd; mem p_webvtt wr
-  ; mem k_id rd; mem k_lines rd; mem k_anchor rd; mem k_scroll rd; mem k_vanchor rd; mem k_width rd
-  ; mem k_align rd; mem k_line rd; mem k_position rd; mem k_regionk rd; mem k_size rd; mem k_vertical rd
-  ; mem (k_lines ++ [61]) wr; mem (k_anchor ++ [61]) wr; mem (k_scroll ++ [61]) wr; mem (k_vanchor ++ [61]) wr
-  ; mem (k_width ++ [61]) wr
-  ; mem (k_align ++ [58]) wr; mem (k_line ++ [58]) wr; mem (k_position ++ [58]) wr; mem (k_regionk ++ [58]) wr
-  ; mem (k_size ++ [58]) wr; mem (k_vertical ++ [58]) wr
-  ; mem k_local gc_strs_parseWebVTTTimestampMap; mem k_mpegts gc_strs_parseWebVTTTimestampMap
-  ; eqs re_vtt_inline_ts gc_re_webVTTRegexpInlineTimestamp; eqs re_vtt_tag gc_re_webVTTRegexpTag ].
-Lemma consts_from_source : all ties = true.
-Proof. vm_compute. reflexivity. Qed.
-End VttTie.
-
-(* ------------------------------------------------------------------ SSA / ASS *)
-Module SsaTie.
-Import Model.Ssa.
-Definition rd := gc_strs_ReadFromSSAWithOptions.
-Definition wr := gc_strs_Subtitles_WriteToSSA.
-Definition ties : list bool :=
-  [ (* style Format names *)
-    eqs (sattr_name (AB BBold)) gc_ssaStyleFormatNameBold; eqs (sattr_name (AB BItalic)) gc_ssaStyleFormatNameItalic
-  ; eqs (sattr_name (AB BStrikeout)) gc_ssaStyleFormatNameStrikeout; eqs (sattr_name (AB BUnderline)) gc_ssaStyleFormatNameUnderline
-  ; eqs (sattr_name (AC CBack)) gc_ssaStyleFormatNameBackColour; eqs (sattr_name (AC COutline)) gc_ssaStyleFormatNameOutlineColour
-  ; eqs (sattr_name (AC CPrimary)) gc_ssaStyleFormatNamePrimaryColour; eqs (sattr_name (AC CSecondary)) gc_ssaStyleFormatNameSecondaryColour
-  ; eqs n_tertiary gc_ssaStyleFormatNameTertiaryColour
-  ; eqs (sattr_name (AF FAlphaLevel)) gc_ssaStyleFormatNameAlphaLevel; eqs (sattr_name (AF FAngle)) gc_ssaStyleFormatNameAngle
-  ; eqs (sattr_name (AF FFontSize)) gc_ssaStyleFormatNameFontSize; eqs (sattr_name (AF FOutline)) gc_ssaStyleFormatNameOutline
-  ; eqs (sattr_name (AF FScaleX)) gc_ssaStyleFormatNameScaleX; eqs (sattr_name (AF FScaleY)) gc_ssaStyleFormatNameScaleY
-  ; eqs (sattr_name (AF FShadow)) gc_ssaStyleFormatNameShadow; eqs (sattr_name (AF FSpacing)) gc_ssaStyleFormatNameSpacing
-  ; eqs (sattr_name (AI IAlignment)) gc_ssaStyleFormatNameAlignment; eqs (sattr_name (AI IBorderStyle)) gc_ssaStyleFormatNameBorderStyle
-  ; eqs (sattr_name (AI IEncoding)) gc_ssaStyleFormatNameEncoding; eqs (sattr_name (AI IMarginL)) gc_ssaStyleFormatNameMarginL
-  ; eqs (sattr_name (AI IMarginR)) gc_ssaStyleFormatNameMarginR; eqs (sattr_name (AI IMarginV)) gc_ssaStyleFormatNameMarginV
-  ; eqs (sattr_name AFontName) gc_ssaStyleFormatNameFontName; eqs (sattr_name AName) gc_ssaStyleFormatNameName
-    (* script info keys *)
-  ; eqs (ikey_name KCollisions) gc_ssaScriptInfoNameCollisions; eqs (ikey_name KOriginalEditing) gc_ssaScriptInfoNameOriginalEditing
-  ; eqs (ikey_name KOriginalScript) gc_ssaScriptInfoNameOriginalScript; eqs (ikey_name KOriginalTiming) gc_ssaScriptInfoNameOriginalTiming
-  ; eqs (ikey_name KOriginalTranslation) gc_ssaScriptInfoNameOriginalTranslation; eqs (ikey_name KScriptType) gc_ssaScriptInfoNameScriptType
-  ; eqs (ikey_name KScriptUpdatedBy) gc_ssaScriptInfoNameScriptUpdatedBy; eqs (ikey_name KSynchPoint) gc_ssaScriptInfoNameSynchPoint
-  ; eqs (ikey_name KTitle) gc_ssaScriptInfoNameTitle; eqs (ikey_name KUpdateDetails) gc_ssaScriptInfoNameUpdateDetails
-  ; eqs (ikey_name KWrapStyle) gc_ssaScriptInfoNameWrapStyle
-  ; eqs (nkey_name KPlayDepth) gc_ssaScriptInfoNamePlayDepth; eqs (nkey_name KPlayResX) gc_ssaScriptInfoNamePlayResX
-  ; eqs (nkey_name KPlayResY) gc_ssaScriptInfoNamePlayResY; eqs n_timer gc_ssaScriptInfoNameTimer
-    (* event Format names and categories *)
-  ; eqs (eattr_name EEffect) gc_ssaEventFormatNameEffect; eqs (eattr_name EEnd) gc_ssaEventFormatNameEnd
-  ; eqs (eattr_name ELayer) gc_ssaEventFormatNameLayer; eqs (eattr_name EMarginL) gc_ssaEventFormatNameMarginL
-  ; eqs (eattr_name EMarginR) gc_ssaEventFormatNameMarginR; eqs (eattr_name EMarginV) gc_ssaEventFormatNameMarginV
-  ; eqs (eattr_name EMarked) gc_ssaEventFormatNameMarked; eqs (eattr_name EName) gc_ssaEventFormatNameName
-  ; eqs (eattr_name EStart) gc_ssaEventFormatNameStart; eqs (eattr_name EStyle) gc_ssaEventFormatNameStyle
-  ; eqs (eattr_name EText) gc_ssaEventFormatNameText
-  ; eqs n_dialogue gc_ssaEventCategoryDialogue
-    (* section names of the reader's switch, the Format key *)
-  ; mem n_events rd; mem n_script_info rd; mem n_v4_styles rd; mem n_v4p_styles rd; mem n_v4_stylesp rd; mem n_format rd
-    (* event cells *)
-  ; mem n_star_default gc_strs_newSSAEventFromString; mem n_default gc_strs_newSSAEventFromString
-  ; mem n_marked1 gc_strs_newSSAEventFromString; mem n_marked1 gc_strs_ssaEvent_string; mem n_marked0 gc_strs_ssaEvent_string
-    (* writer *)
-  ; mem n_v4plus wr; mem (10 :: n_styles_hdr_v4 ++ [10]) wr; mem (10 :: n_styles_hdr_v4p ++ [10]) wr
-  ; mem (10 :: n_events_hdr ++ [10]) wr; mem n_format_pfx wr; mem n_style_pfx wr
-  ; mem n_script_info_hdr gc_strs_ssaScriptInfo_bytes
-  ; eqs re_ssa_effect gc_re_ssaRegexpEffect ].
-Lemma consts_from_source : all ties = true.
-Proof. vm_compute. reflexivity. Qed.
-End SsaTie.
-
-(* ------------------------------------------------------------------ TTML *)
-Module TtmlTie.
-Import Model.Ttml.
-(* the 23 tts: attribute names, in the order of the struct (= the order in which encoding/xml writes them), are the
-   local names of the xml tags of TTMLOutStyleAttributes; the reader's struct carries the same local names *)
-Definition out_attr_names : list str := map (fun p => tag_name (snd p)) gc_xmltags_TTMLOutStyleAttributes.
-Definition in_attr_names : list str := map (fun p => tag_name (snd p)) gc_xmltags_TTMLInStyleAttributes.
-Fixpoint strs_eqb (a b : list str) : bool :=
-  match a, b with [] , [] => true | x :: a', y :: b' => str_eqb x y && strs_eqb a' b' | _, _ => false end.
-Definition lang_pairs : list (str * str) :=
-  flat_map (fun p => match p with (CS a, CS b) => [(a, b)] | _ => [] end) gc_bimap_ttmlLanguageMapping.
-Definition ties : list bool :=
-  [ strs_eqb (attr_names ++ [[122; 73; 110; 100; 101; 120]]) out_attr_names          (* ... then zIndex, the integer one *)
-  ; strs_eqb (attr_names ++ [[122; 73; 110; 100; 101; 120]]) in_attr_names
-  ; Nat.eqb (length lang_table) (length gc_bimap_ttmlLanguageMapping)
-  ; forallb (fun p => match map_get (fst p) lang_table with Some v => str_eqb v (snd p) | None => false end) lang_pairs
-  ; Nat.eqb (length lang_pairs) (length gc_bimap_ttmlLanguageMapping)
-  ; mem ns_ttm gc_strs_Subtitles_WriteToTTML; mem ns_tts gc_strs_Subtitles_WriteToTTML
-  ; mem s_br gc_strs_Subtitles_WriteToTTML; mem s_span gc_strs_Subtitles_WriteToTTML
-  ; mem s_br gc_strs_ReadFromTTML
-  ; eqs (tag_of [88; 77; 76; 78; 97; 109; 101] gc_xmltags_TTMLOut) s_tt           (* XMLName -> tt *)
-  ; eqs (tag_name (tag_of [88; 77; 76; 78; 97; 109; 101] gc_xmltags_TTMLOut)) s_tt
-  ; eqs (tag_of [66; 101; 103; 105; 110] gc_xmltags_TTMLOutSubtitle) s_begin      (* Begin *)
-  ; eqs (tag_of [69; 110; 100] gc_xmltags_TTMLOutSubtitle) s_end                  (* End *)
-  ; eqs (tag_of [66; 101; 103; 105; 110] gc_xmltags_TTMLInSubtitle) s_begin
-  ; eqs (tag_of [69; 110; 100] gc_xmltags_TTMLInSubtitle) s_end
-  ; eqs re_ttml_clock_frames gc_re_ttmlRegexpClockTimeFrames; eqs re_ttml_offset gc_re_ttmlRegexpOffsetTime ].
-Lemma consts_from_source : all ties = true.
-Proof. vm_compute. reflexivity. Qed.
-End TtmlTie.
 
